@@ -4,6 +4,7 @@
 
 mod builds;
 mod c01;
+mod c05;
 mod c07;
 mod c08;
 mod c10;
@@ -18,6 +19,8 @@ mod feed;
 mod ieng;
 mod meng;
 mod prog;
+mod refi;
+mod refi2;
 mod refm;
 mod rng;
 mod sched;
@@ -72,6 +75,8 @@ fn main() {
 		"transcript" => builds::transcript_main(&args[2..]),
 		"C15" => dispatch!(c15::C15, args),
 		"C07" => dispatch!(c07::C07, args),
+		"C05" => dispatch!(c05::IndCheck { id: "C05" }, args),
+		"C06" => dispatch!(c05::IndCheck { id: "C06" }, args),
 		"C09" => dispatch!(sched::SchedCheck { id: "C09" }, args),
 		"C13" => dispatch!(sched::SchedCheck { id: "C13" }, args),
 		"selfcheck-determinism" => {
